@@ -719,6 +719,20 @@ func (w *world) doState(sc *fsc, s connectivity.State) {
 				w.labels["swap-resurrects-dead-slot"]++
 				w.rrList = append(w.rrList, i)
 				w.rrGen++
+				if w.alive()+1 > w.cfg.Max && w.cfg.Min <= w.cfg.Max {
+					// the channel comes back into a pool that was re-created (full) meanwhile
+					if w.o.Props["C03"] {
+						if k := knownFinding("resurrection-after-pool-recreation-exceeds-max"); k != "" {
+							if !knownPrinted[k] {
+								knownPrinted[k] = true
+								fmt.Printf("KNOWN-FINDING: property=C03 %s\n", k)
+							}
+							w.labels["case-ends-in-a-known-finding"]++
+							panic(abortOther{"known-finding"})
+						}
+					}
+					w.fail("C03", "A.size", "%s: the replacement of a channel that had left the pool takes over and makes the pool %d channels, maxSize is %d (%s)", what, w.alive()+1, w.cfg.Max, w.describe())
+				}
 			}
 			if !(sl.alive && sl.st == connectivity.Ready) {
 				// the slot becomes READY through the swap: keys come home
@@ -1390,9 +1404,14 @@ func (w *world) doDone(ci, outcome, rep int, replyKeys []int) {
 				}
 			}
 			if sl.de >= w.cfg.UdCalls && cmp > 0 {
-				if sl.refreshing {
+				switch {
+				case sl.refreshing:
 					w.labels["refresh-suppressed-already-refreshing"]++
-				} else {
+				case !sl.alive:
+					// the channel has left the pool: a late completion does not bring it back (C03: the pool may be
+					// at its full size again)
+					w.labels["no-refresh-for-a-channel-that-left-the-pool"]++
+				default:
 					expect = true
 				}
 			}
